@@ -11,7 +11,7 @@ var errNoPreVote = errors.New("unexpected command: peer does not know pre-vote")
 // C07.NONVOTER-INERT, C14.ISOLATED, C14.TRANSFER-EXCEPTION.
 func vh_candidate() {
 	n := vChoose("n", 1, 2+vTier())
-	r, env := vNewRaft("c", vRaftOpts{n: n})
+	r, env := vNewRaft("c", vRaftOpts{n: n, splitCommitted: true})
 	vAssume(vInvBasic(r, env))
 	selfIdx := vChoose("self", -1, n-1)
 	servers := r.configurations.latest.Servers
@@ -24,7 +24,10 @@ func vh_candidate() {
 	}
 	r.state = Candidate
 	r.preVoteDisabled = vChoose("preVoteDisabled", 0, 1) == 1
-	transfer := vChoose("transfer", 0, 1) == 1
+	transfer := false
+	if n <= 2 {
+		transfer = vChoose("transfer", 0, 1) == 1 // (n = 3 is explored without the transfer flag to bound the thorough tier)
+	}
 	r.candidateFromLeadershipTransfer.Store(transfer)
 	env.stable.failOn = n == 1 && vChoose("stableFaults", 0, 1) == 1
 	type ans struct {
